@@ -40,7 +40,7 @@ func c05Alphabet(files []*sFile, thorough bool) func(hist []sAction) []sAction {
 		if histCount(hist, "poll", "", 0) < 1 {
 			out = append(out, sAction{Op: "poll", F: "a1"}, sAction{Op: "poll", F: "b1"})
 		}
-		for _, op := range []string{"restart", "adv25h", "age", "clean"} {
+		for _, op := range []string{"restart", "adv25h", "age", "clean", "adv10s"} {
 			if histCount(hist, op, "", 0) < 1 {
 				out = append(out, sAction{Op: op})
 			}
@@ -134,5 +134,5 @@ func TestC05(t *testing.T) {
 	}
 	files := c05Files()
 	runSimCheck(t, "C05", "stage retransmission histories (E-HIST)", files, c05Alphabet(files, vh.Thorough()), c05Check, depth,
-		fmt.Sprintf("all histories up to length %d over: file a in 2 parts, file b (1 part) announcing a as predecessor; every part received up to 2 (thorough: 3) times at any point (before completion, while held, after delivery, after the in-memory record aged out), one 'did you receive' query, one poll, orderly restart, clock +25 h, cache ageing (cleanCache called directly), CleanNow; the harness consumes the final directory after every step", depth))
+		fmt.Sprintf("all histories up to length %d over: file a in 2 parts, file b (1 part) announcing a as predecessor; every part received up to 2 (thorough: 3) times at any point (before completion, while held, after delivery, after the in-memory record aged out), one 'did you receive' query, one poll, orderly restart, clock +10 s / +25 h, cache ageing (cleanCache called directly), CleanNow; the harness consumes the final directory after every step", depth))
 }
